@@ -16,6 +16,7 @@ PROP = dict(
                 'directories; Load equals the documented reference resolution (first non-empty of switch, environment, '
                 'chain files in order, default; LAYERS/EXPORTS against the effective base path; loop iff the chain '
                 'revisits a file; unknown key => error); per case Coq evaluates wf, model=obs, spec(obs)',
-    assumptions=['no symbolic links and no concurrent modification of the configuration files; path names shorter '
+    assumptions=['constants regenerated from the source on every run (Gen/Consts.v) that the predicate or the documented part of the model rests on -- the defaults of the directory names / base path / chroot executable and the whole settingSetup table -- are compared with literals by theorem C18_constants_pinned: an edit of one of them is reported (proof obligation no longer checks) and has to be reviewed; values the manual does not state are the values of the reviewed tree',
+        'no symbolic links and no concurrent modification of the configuration files; path names shorter '
                  'than PATH_MAX and lines shorter than 64 KiB (wf bounds every string by 4000 bytes)'],
 )
